@@ -13,6 +13,7 @@
 #include "common/rng.h"
 #include "draco/attributes/attribute_transform_data.h"
 #include "draco/mesh/mesh.h"
+#include "draco/metadata/geometry_metadata.h"
 #include "draco/point_cloud/point_cloud.h"
 
 namespace vf {
@@ -281,6 +282,15 @@ inline uint64_t ReadEverything(const draco::PointCloud &pc, const draco::Mesh *m
   return h;
 }
 
+inline void MixMetadata(const draco::Metadata &m, const std::function<void(const void *, size_t)> &mix) {
+  uint32_t n = static_cast<uint32_t>(m.entries().size());
+  mix(&n, 4);
+  for (auto &e : m.entries()) { uint32_t l = e.first.size(); mix(&l, 4); mix(e.first.data(), l); l = e.second.data().size(); mix(&l, 4); if (l) mix(e.second.data().data(), l); }
+  n = static_cast<uint32_t>(m.sub_metadatas().size());
+  mix(&n, 4);
+  for (auto &sm : m.sub_metadatas()) { uint32_t l = sm.first.size(); mix(&l, 4); mix(sm.first.data(), l); MixMetadata(*sm.second, mix); }
+}
+
 // Ordered 128-bit digest of a decoded geometry (C05/C06).
 inline std::pair<uint64_t, uint64_t> OrderedDigest(const draco::PointCloud &pc, const draco::Mesh *mesh) {
   uint64_t h1 = 0x1234567, h2 = 0x89abcdef;
@@ -294,6 +304,12 @@ inline std::pair<uint64_t, uint64_t> OrderedDigest(const draco::PointCloud &pc, 
     mix(d, sizeof d);
     const size_t n = static_cast<size_t>(a->num_components()) * draco::DataTypeLength(a->data_type());
     for (uint32_t p = 0; p < np; ++p) mix(a->GetAddress(a->mapped_index(draco::PointIndex(p))), n);
+  }
+  if (const draco::GeometryMetadata *gm = pc.GetMetadata()) {
+    uint32_t tag = 0x4d455441, n = static_cast<uint32_t>(gm->attribute_metadatas().size());
+    mix(&tag, 4); mix(&n, 4);
+    for (auto &am : gm->attribute_metadatas()) { uint32_t id = am->att_unique_id(); mix(&id, 4); MixMetadata(*am, mix); }
+    MixMetadata(*gm, mix);
   }
   return {h1, h2};
 }
